@@ -542,6 +542,27 @@ func ruleWireListing(w *World, r *RuleResult) {
 					signedFn[t.S] = true
 					return true
 				}
+				// the rendering expanded in place: field, or field - M
+				l := linearOf(t)
+				if l == nil || l.Const != 0 {
+					return false
+				}
+				nf, nm := int64(0), int64(0)
+				for k, cf := range l.Coef {
+					a := stripConv(l.Atom[k])
+					switch {
+					case fld(a, f):
+						nf += cf
+					case a.Op == "sel" && a.S == c.a.MField, a.Op == "call" && strings.HasSuffix(a.S, ".CoreSize"):
+						nm += cf
+					default:
+						return false
+					}
+				}
+				if nf == 1 && (nm == 0 || nm == -1) {
+					d.add(true, "signed/congruent", c.posOf(e), "prints the field or the field minus M (congruent to the field modulo M)", "")
+					return true
+				}
 				return false
 			}
 			d.add(fld(get(3), "AMode") && signed(get(4), "A") && fld(get(5), "BMode") && signed(get(6), "B"), "line/operands", c.posOf(e), "A-mode, signed A, B-mode, signed B of the same instruction, in this order",
